@@ -103,7 +103,7 @@ class Spec(PropSpec):
     ]
 
     def gen_cases(self, ctx):
-        n = 150 if ctx.tier == "quick" else 1500
+        n = 350 if ctx.tier == "quick" else 2500
         if ctx.escalate:
             n *= 2
         cases = [F.gen_partition_script(ctx.rng) for _ in range(n)]
